@@ -43,7 +43,7 @@ def prefs_view(name):
 
 OPS = ['add_uid_B', 'add_uid_img', 'add_sub_sign', 'add_sub_enc', 'recert_A_P2', 'recert_A_P3_same_second', 'recert_A_P2_generic_same_second', 'recert_B_P3', 'third_party_A', 'third_party_A_local', 'third_party_A_keyid_only',
        'revoke_uid_A', 'revoke_sub0', 'revoke_key', 'add_revoker', 'del_uid_B', 'protect', 'derive_pub', 'copy', 'export_import_bin', 'export_import_asc',
-       'direct_sig', 'direct_third_local']
+       'direct_sig', 'direct_third_local', 'release_pub']
 
 ROOTS = ['ed25519a', 'ecdsa_p256a', 'rsa2048a']
 
@@ -56,6 +56,7 @@ class Model(object):
         self.revokers = 0
         self.direct = 0
         self.direct_third = []                     # exportable flag of each third-party direct-key signature held by the object
+        self.held = 0                              # public twins derived earlier and still referenced
         self.protected = False
 
     def enabled(self, op):
@@ -88,6 +89,8 @@ class Model(object):
             return self.direct == 0
         if op == 'direct_third_local':
             return len(self.direct_third) == 0
+        if op == 'release_pub':
+            return self.held > 0
         return True
 
 
@@ -127,7 +130,7 @@ class World(object):
         """Execute one operation of the menu on the live key (inside an unlock scope when the model says protected)."""
         import pgpy
         m = self.model
-        if m.protected and op not in ('derive_pub', 'copy', 'export_import_bin', 'export_import_asc', 'del_uid_B', 'direct_third_local'):
+        if m.protected and op not in ('derive_pub', 'release_pub', 'copy', 'export_import_bin', 'export_import_asc', 'del_uid_B', 'direct_third_local'):
             with self.key.unlock(PW):
                 self._apply(op)
         else:
@@ -218,6 +221,13 @@ class World(object):
             m.protected = True
         elif op == 'derive_pub':
             self.held.append(key.pubkey)
+            m.held += 1
+        elif op == 'release_pub':
+            # the application drops every public twin it derived earlier (objects that were linked to the key only weakly must not take anything with them)
+            import gc
+            del self.held[:]
+            m.held = 0
+            gc.collect()
         elif op == 'copy':
             self.key = copy.copy(key)
         elif op in ('export_import_bin', 'export_import_asc'):
